@@ -62,6 +62,7 @@ ExperimentOps(T) ==
     \cup {[op |-> "RemoveService", name |-> s] : s \in SvcNames}
     \cup {[op |-> "Connect", s |-> s, i |-> i] : s \in TopSvcs(T), i \in NodeSideIfs(T)}
     \cup {[op |-> "Disconnect", s |-> s, i |-> i] : s \in TopSvcs(T), i \in NodeSideIfs(T)}
+    \cup {[op |-> "ConnectViaStale", i |-> i] : i \in NodeSideIfs(T) \cup {"stale/iface"}}
     \cup (IF Profile = "full" THEN
             {[op |-> "AddFacility", name |-> "f1", site |-> s, rp |-> <<>>] : s \in {"S1"}}
        \* the multi-interface form; a repeated or invalid interface name at the last position fails the whole call
